@@ -480,4 +480,110 @@ theorem locateAccount_lookup (O : Opaque) (st : PCell) (addr : Bytes) (acc : PCe
   have h2 : ¬ sl.1.length < 320 := by omega
   simp [lookupShardAccount, hroot, hlook, hskip, h2, hidx]
 
+/-! ### spec-valid augmented dictionaries inside a proof (completeness side) -/
+
+open TonVerif.Spec.Hashmap (LabelEnc pre)
+
+/-- `ValidAugP decY decX n c kv`: the constructed cell `c` is the root edge of a `HashmapAug n X Y` (hashmap.tlb; every
+label in ANY constructor that can express it) in which any edge may have been replaced by a non-ordinary cell (a
+pruned branch); on every unpruned fork the extra is readable (`decY`), on every unpruned leaf the extra and the value
+(`decX`).  `kv` = the unpruned leaves, left to right, keys relative to this edge. -/
+inductive ValidAugP {X : Type} (decY : PSlice → Option PSlice) (decX : PSlice → Option X) :
+    Nat → PCell → List (Bits × X) → Prop where
+  | leaf {n s k lb rest refs info sl x} : LabelEnc n s k lb → s.length = n → info.kind = -1 → info.bits = lb ++ rest →
+      decY (rest, refs) = some sl → decX sl = some x → ValidAugP decY decX n (.mk info refs) [(s, x)]
+  | fork {n m s k lb rest l r more info kvl kvr sl} : LabelEnc n s k lb → n = s.length + 1 + m → info.kind = -1 →
+      info.bits = lb ++ rest → ValidAugP decY decX m l kvl → ValidAugP decY decX m r kvr →
+      decY (rest, more) = some sl →
+      ValidAugP decY decX n (.mk info (l :: r :: more)) (kvl.map (pre (s ++ [false])) ++ kvr.map (pre (s ++ [true])))
+  | pruned {n c} : c.info.kind ≠ -1 → ValidAugP decY decX n c []
+
+/-- `parse_aug` accepts every such dictionary and returns its unpruned leaves -/
+theorem parseAugP_valid {X : Type} {decY : PSlice → Option PSlice} {decX : PSlice → Option X} {n c kv}
+    (h : ValidAugP decY decX n c kv) : ∀ pfx : Bits, parseAugP decY decX c (n : Int) pfx = some (kv.map (pre pfx)) := by
+  induction h with
+  | @leaf n s k lb rest refs info sl x hl hn hk hb hy hx =>
+    intro pfx
+    rw [parseAugP, hb, deserializeHml_enc hl]
+    simp [hk, hn, hy, hx, pre]
+  | @fork n m s k lb rest l r more info kvl kvr sl hl hn hk hb _ _ hy ihl ihr =>
+    intro pfx
+    rw [parseAugP, hb, deserializeHml_enc hl]
+    have hm : ((n : Int) - (s.length : Int) = 0) = False := by simp; omega
+    have hm2 : (n : Int) - (s.length : Int) - 1 = (m : Int) := by omega
+    simp only [hk, ne_eq, not_true_eq_false, if_false, hm, hm2, parseAugForkP]
+    rw [ihl, ihr]
+    simp [hy, pre_comp, List.append_assoc]
+  | @pruned n c hk =>
+    intro pfx
+    cases c with
+    | mk info refs =>
+      simp only [PCell.info] at hk
+      rw [parseAugP, if_pos hk]; rfl
+
+theorem validAugP_len {X : Type} {decY : PSlice → Option PSlice} {decX : PSlice → Option X} {n c kv}
+    (h : ValidAugP decY decX n c kv) : ∀ q ∈ kv, q.1.length = n := by
+  induction h with
+  | leaf _ hn _ _ _ _ => intro q hq; simp at hq; subst hq; exact hn
+  | fork _ hn _ _ _ _ _ ihl ihr =>
+    intro q hq
+    simp only [List.mem_append, List.mem_map] at hq
+    rcases hq with ⟨a, ha, rfl⟩ | ⟨a, ha, rfl⟩
+    · have := ihl a ha; simp [pre, this]; omega
+    · have := ihr a ha; simp [pre, this]; omega
+  | pruned _ => intro q hq; simp at hq
+
+/-- LOCATE is complete on honest states: an ordinary `shard_state` cell with ≥ 362 bits whose second reference is
+`ahme_root$1 ^root extra` with a readable top-level extra, `root` a spec-valid `HashmapAug 256` (any pruning of edges)
+that still holds the address with account reference `acc`, a readable (or pruned) `^[…]` group and `custom` absent,
+pruned or accepted by `McStateExtra.deserialize`. -/
+theorem locateAccount_complete (O : Opaque) (st omq accs grp root : PCell) (rest2 emore : List PCell) (erest : Bits)
+    (kv : List (Bits × PCell)) (addr : Bytes) (acc : PCell)
+    (hk : st.info.kind = -1) (hlen : 361 < st.info.bits.length) (htag : st.info.bits.take 32 = shardStateTag)
+    (hsi : (st.info.bits.drop 64).take 2 = [false, false]) (hrefs : st.refs = omq :: accs :: grp :: rest2)
+    (hak : accs.info.kind = -1) (hab : accs.info.bits = true :: erest) (har : accs.refs = root :: emore)
+    (hext : ∃ sl, readDepthBalance (erest, emore) = some sl) (hrk : root.info.kind = -1)
+    (hv : ValidAugP readDepthBalance (readShardAccount O) 256 root kv) (hmem : (bytesToBits addr, acc) ∈ kv)
+    (hw : Bytes.WF addr) (hgrp : stateRefGroup grp = true)
+    (hcu : st.info.bits[361]? = some false ∨
+      ∃ cu more, rest2 = cu :: more ∧ (cu.info.kind ≠ -1 ∨ O.mcExtra cu = true)) :
+    locateAccount O st addr = some acc := by
+  have hp : parseAugP readDepthBalance (readShardAccount O) root 256 [] = some kv := by
+    have := parseAugP_valid hv []
+    rw [map_pre_nil] at this
+    exact this
+  have hlens := validAugP_len hv
+  have hne : kv.any (fun p => p.1.isEmpty) = false := by
+    rw [List.any_eq_false]
+    intro q hq
+    have := hlens q hq
+    cases hq1 : q.1 with
+    | nil => rw [hq1] at this; simp at this
+    | cons a t => simp
+  obtain ⟨sl, hsl⟩ := hext
+  have hload : loadShardAccounts O accs = some (intKeys kv) := by
+    simp [loadShardAccounts, hak, hab, har, hrk, hp, hne, hsl]
+  have hget : dictGet (natOfBE addr) (intKeys kv) = some acc := by
+    rw [natOfBE_bits addr hw]
+    exact intKeys_mem kv 256 hlens (parseAugP_keys _ _ root 256 [] kv hp).2 _ _ hmem
+  have h1 : ¬ st.info.bits.length < 361 := by omega
+  obtain ⟨b, tl, hdrop⟩ : ∃ b tl, st.info.bits.drop 361 = b :: tl := by
+    cases hd : st.info.bits.drop 361 with
+    | nil => have := congrArg List.length hd; simp at this; omega
+    | cons b tl => exact ⟨b, tl, rfl⟩
+  have hb361 : st.info.bits[361]? = some b := getElem?_of_drop hdrop
+  unfold locateAccount
+  simp only [hk, ne_eq, not_true_eq_false, if_false, h1, htag, hsi, hrefs, hload, hgrp, Bool.not_true,
+    Bool.false_eq_true, hdrop]
+  rcases hcu with hcu | ⟨cu, more, rfl, hcu⟩
+  · rw [hb361] at hcu
+    cases hcu
+    exact hget
+  · cases b with
+    | false => exact hget
+    | true =>
+      rcases hcu with hcu | hcu
+      · simp [hcu, hget]
+      · simp [hcu, hget]
+
 end TonVerif.Proofs.Locate
